@@ -1,3 +1,4 @@
+import dataclasses
 import collections.abc
 import enum
 import operator
@@ -672,3 +673,34 @@ def f65(xs):
         if k:
             todo.append(k - 1)
     return n
+
+
+@dataclasses.dataclass(frozen=True)
+class R66:
+    digest: str
+    size: str
+    name: str = 'n'
+
+
+def f66(xs):
+    a = R66(*'h 10 P0'.split())
+    b = R66('h', '10')
+    c = R66(digest='h', size='10', name='P0')
+    return (a.digest, a.name, b.name, a == c, a == b, a != b, a == ('h', '10', 'P0'))
+
+
+def f67(xs):
+    first, *rest = xs
+    it = iter(xs)
+    lead = [next(it), *it]
+    return ([0, *rest, 9], (*rest, first), lead, [*'ab', *[]], {*rest} == set(rest))
+
+
+def f68(xs):
+    d = {'P0': 1, 'P1': 2}
+    return (set(['P0']) <= d.keys(), set(['P0', 'P2']) <= d.keys(), {'P0', 'P1'} >= d.keys(), set() < {'a'}, {'a'} < {'a'}, list(d.keys()), 'P1' in d.keys())
+
+
+def f69(xs):
+    return ('line\n'.removesuffix('\n'), 'line'.removesuffix('\n'), '\n'.removesuffix('\n'), ' x'.removeprefix(' '), 'x'.removeprefix(' '), 'abc'.removesuffix(''),
+            'a\n\n'.removesuffix('\n'))
